@@ -15,5 +15,6 @@ os.remove('.files.tmp')
 PY
 timeout 3000 make -j8
 cd ..
-./harness/build.sh .work/bin
+./harness/build.sh "$(pwd)/.work/bin"
+(cd tools/gotools && GOFLAGS=-mod=mod GOPROXY=off GOSUMDB=off GOTOOLCHAIN=local go build -o ../../.work/bin/mapranges ./mapranges)
 echo setup done
